@@ -7,10 +7,51 @@ from props._util import rng_for, run_cases
 from props.C01 import knotted
 
 LEVEL = "other"
-DEDUCTIVE = []
-TRUSTED = ["z3 5.1.0", "pulp's LpProblem.solve dispatches to solver.actualSolve", "CPython 3.12"]
-ASSUMPTIONS = []
-EXPLANATION = "see DESIGN.md 4/C13"
+DEDUCTIVE = [{"module": "rnapolis.common", "sidecar": "contracts.common_milp_c",
+              "targets": ["BpSeq.dot_bracket", "BpSeq.convert_to_dot_bracket", "lemma:esum_witness"]}]
+TRUSTED = ["z3 5.1.0 / cvc5 1.0.3", "pyvc encoding of Python semantics (DESIGN 2.3)", "CPython 3.12",
+           # assumed contracts of third-party / stdlib calls (contracts/common_milp_c.py EXTERNALS; each is the trusted base)
+           "pulp.HiGHS_CMD(): a new solver object; solver.available(): ANY truth value; pulp.LpSolverDefault (symbolic module "
+           "attribute): ANY solver object or None",
+           "pulp.LpProblem(name, sense): new object, no objective, empty constraint list; pulp.LpVariable(name, lo, hi, cat): new "
+           "object (identity) with these attributes; variable.getName() returns the name",
+           "pulp term algebra (free, nothing evaluated): var*int / int*var / mono*int -> monomial (var, coef); var+var -> two-variable "
+           "sum; lpSum(list of variables | list of monomials) -> list sum; expr <=|==|>= int -> constraint (expr, sense, rhs)",
+           "LpProblem.__iadd__: constraint -> appended to the constraint list; affine expression -> objective; True -> nothing; "
+           "False / other -> TypeError",
+           "LpProblem.variables(): the variables occurring in the objective or a constraint, each once, arbitrary order",
+           "T-solver (LpProblem.solve): raises PulpSolverError or returns with status = ANY integer and arbitrary values, except: "
+           "status == LpStatusOptimal and all variables Integer => every value is an integer within the variable's bounds and every "
+           "constraint that was added holds (sum constraints through the running sum esum, lemma esum_definition)",
+           "itertools.combinations(range(n), 2): every pair a < b exactly once; collections.defaultdict(set|list); "
+           "str.split(sep) as uninterpreted parts characterised by lemma split3",
+           "callee contracts proved under C01 (contracts/common_c.py): BpSeq.__regions, BpSeq.__make_dot_bracket, BpSeq.fcfs"]
+ASSUMPTIONS = [
+    "levels30(self): the structure needs at most 30 levels under FCFS (precondition of BpSeq.fcfs, C01; property quantifier)",
+    "degree30(self) (definition lemma degree30_definition): no stem crosses more than 29 other stems, so that max_order = max "
+    "degree + 1 <= 30 = number of bracket types.  This is STRONGER than the property's 'needs at most 30 levels': for a structure "
+    "with a stem crossing >= 30 others the model allows levels >= 30 and only the solver's optimality (not T-solver feasibility) "
+    "could keep orders[i] < 30 - out of reach, such structures are excluded here",
+    "esum_definition (definition): esum(k, n) is the running sum of the values of the first n variables of list-sum constraint k",
+    "numeral_definition / numeral_definition_all (definition): numeral(s) abbreviates 'matches [0-9]+'",
+    "split3 (assumed fact about str.split): (a + '_' + b + '_' + c).split('_') == [a, b, c] when a, b, c contain no '_'",
+    "int_str_roundtrip (assumed fact about int()/str()): for n >= 0, str(n) matches [0-9]+, contains no '_', and int(str(n)) == n",
+    "len() of a set of ints is the non-negative uninterpreted function len.set of the set value (engine, SET_CARD_FUNCTION)",
+]
+EXPLANATION = (
+    "Under contract (contracts/common_milp_c.py, real source re-read on every run): BpSeq.dot_bracket (solver selection: "
+    "HiGHS available or not x LpSolverDefault object or None, all paths) and BpSeq.convert_to_dot_bracket(solver) with a "
+    "NONDETERMINISTIC solver: solve raises PulpSolverError or returns ANY status; raises = [] (never raises: every IndexError / "
+    "KeyError / ValueError / TypeError of the body is an obligation - incl. calling the DotBracket returned by the cached property "
+    "self.fcfs); ensures on EVERY exit: length, sequence, lossless(self.entries, result.pairs) (C01 vocabulary), fresh; ensures "
+    "'fcfs-when-no-optimum': solver is None or the solver raised or status != Optimal => the exit taken is a `return self.fcfs`. "
+    "Exits: (a) no solver -> fcfs contract; (b) empty conflict graph -> __make_dot_bracket(regions, zeros), its precondition "
+    "proper() proved from the graph loop invariant (edges == crossing pairs); (c) PulpSolverError and (d) status != Optimal -> "
+    "fcfs; (e) read-back -> __make_dot_bracket(regions, orders): proper(regions, orders) proved from the constraints the code "
+    "ADDED (one-level-per-region sums, adjacency pairs; loop invariants over the free pulp term algebra with ghost maps), "
+    "T-solver feasibility, lemma esum_witness (a 0/1 sum >= 1 has a summand 1, proved by induction) and the name parsing "
+    "(split/int inverse of the f-string). Bounded stand-in: fault matrix on real pulp with injected faults."
+)
 
 
 def bounded(tier, seed):
